@@ -14,6 +14,35 @@ from .engine import OutOfReach, PyRaise, PathEnd
 from . import regex2smt
 
 
+def pfx_kind(l):
+    """kind of a ListV's symbolic prefix: 'strs' (Seq of String), 'chars' (a String, one element per
+    character -- exact for lists of one-character strings), 'any' (uninspected elements)."""
+    srt = l.prefix.sort()
+    if srt == z3.StringSort():
+        return "chars"
+    if srt == z3.SeqSort(z3.StringSort()):
+        return "strs"
+    return "any"
+
+
+def pfx_elem(l, i):
+    k = pfx_kind(l)
+    if k == "chars":
+        return mk_str(z3.SubString(l.prefix, i, 1))
+    if k == "strs":
+        return mk_str(l.prefix[i])
+    raise OutOfReach("element of an uninspected list prefix")
+
+
+def pfx_joined(ctx, l):
+    k = pfx_kind(l)
+    if k == "chars":
+        return l.prefix
+    if k == "strs":
+        return ctx.joined(l.prefix)
+    raise OutOfReach("join over an uninspected list prefix")
+
+
 class SliceV(object):
     def __init__(self, lo, hi, step):
         self.lo, self.hi, self.step = lo, hi, step
@@ -224,11 +253,33 @@ def dict_get(I, d, k, node=None):
     raise PyRaise("KeyError", "symbolic key", site=node)
 
 
+BIG_DICT = 300
+
+
+def big_dict_fns(I, d):
+    """A large constant str->str table read with a symbolic key is abstracted by an uninterpreted
+    function and membership predicate (sound: what is proved holds for every table)."""
+    import hashlib
+    h = hashlib.sha256(repr(sorted(d.keys())).encode("utf-8", "surrogatepass")).hexdigest()[:8]
+    has = I.ctx.opaque_fn("table_has_" + h, [z3.StringSort()], z3.BoolSort())
+    get = I.ctx.opaque_fn("table_get_" + h, [z3.StringSort()], z3.StringSort())
+    return has, get
+
+
+def is_big_str_table(d):
+    return len(d) > BIG_DICT and all(isinstance(k, str) for k in d) and all(isinstance(v, str) for v in d.values())
+
+
 def const_dict_get(I, d, k, node=None):
     if key_concrete(k):
         if k in d:
             return d[k]
         raise PyRaise("KeyError", repr(k), site=node)
+    if is_big_str_table(d) and is_strlike(k):
+        has, get = big_dict_fns(I, d)
+        if not I.ctx.branch(has(zs(k))):
+            raise PyRaise("KeyError", "symbolic key not in table", site=node)
+        return mk_str(get(zs(k)))
     cands = [(kk, v) for kk, v in d.items() if I.eq(k, kk) is not False]
     hit = z_or([I.eq(k, kk) for kk, v in cands])
     if not I.ctx.branch(hit):
@@ -305,13 +356,37 @@ def str_slice(I, s, sl):
         r = z3.SubString(z, lo, hi - lo)
         # instances of the decomposition lemma  z == z[:lo] ++ z[lo:hi] ++ z[hi:]  (sound; helps the solver)
         if sl.hi is None and not z3.is_string_value(z):
-            I.ctx.assume(z == z3.Concat(z3.SubString(z, 0, lo), r))
-            I.ctx.assume(z3.Length(r) == n - lo)
+            inr = z3.And(lo >= 0, lo <= n)
+            I.ctx.assume(z3.Implies(inr, z == z3.Concat(z3.SubString(z, 0, lo), r)))
+            I.ctx.assume(z3.Implies(inr, z3.Length(r) == n - lo))
         elif sl.lo is None and not z3.is_string_value(z):
-            I.ctx.assume(z == z3.Concat(r, z3.SubString(z, hi, n - hi)))
-            I.ctx.assume(z3.Length(r) == hi)
+            inr = z3.And(hi >= 0, hi <= n)
+            I.ctx.assume(z3.Implies(inr, z == z3.Concat(r, z3.SubString(z, hi, n - hi))))
+            I.ctx.assume(z3.Implies(inr, z3.Length(r) == hi))
         return mk_str(r)
     return mk_str(z3.If(hi > lo, z3.SubString(z, lo, hi - lo), z3.StringVal("")))
+
+
+def char_at_facts(ctx, z, pos, depth=0):
+    """Instances of  (a ++ b)[i] == a[i]  (i < |a|),  (a ++ b)[i] == b[i - |a|]  (i >= |a|)  and
+    w[lo:lo+n][i] == w[lo + i]: true facts the sequence solver does not find quickly by itself."""
+    if depth > 3 or z3.is_string_value(z):
+        return
+    k = z.decl().kind()
+    here = z3.SubString(z, pos, 1)
+    if k == z3.Z3_OP_SEQ_CONCAT:
+        args = z.children()
+        a = args[0]
+        b = args[1] if len(args) == 2 else z3.Concat(*args[1:])
+        la = z3.Length(a)
+        ctx.assume(z3.Implies(z3.And(pos >= 0, pos < la), here == z3.SubString(a, pos, 1)))
+        ctx.assume(z3.Implies(z3.And(pos >= la, pos < la + z3.Length(b)), here == z3.SubString(b, pos - la, 1)))
+        char_at_facts(ctx, a, pos, depth + 1)
+    elif k == z3.Z3_OP_SEQ_EXTRACT:
+        w, lo, ln = z.children()
+        ctx.assume(z3.Implies(z3.And(pos >= 0, pos < ln, lo >= 0, lo + pos < z3.Length(w)),
+                              here == z3.SubString(w, lo + pos, 1)))
+        char_at_facts(ctx, w, lo + pos, depth + 1)
 
 
 def getitem(I, v, idx, node=None):
@@ -341,6 +416,18 @@ def getitem(I, v, idx, node=None):
             if idx.step is None and idx.hi is None and idx.lo is not None and idx.lo < 0 and -idx.lo <= len(v.items):
                 return ListV(v.items[idx.lo:])
             raise OutOfReach("slice of symbolic-length list")
+        if isinstance(v, ListV) and v.prefix is not None and idx.step is None and idx.hi is None and is_intlike(idx.lo):
+            # l[e:] with symbolic e: inside the prefix, or e == len(prefix) + k
+            e = zi(idx.lo)
+            n = z3.Length(v.prefix)
+            if not ctx.branch(e >= 0):
+                raise OutOfReach("negative symbolic slice start")
+            if ctx.branch(e <= n):
+                return ListV(list(v.items), prefix=z3.Extract(v.prefix, e, n - e))
+            for k in range(1, len(v.items) + 1):
+                if ctx.branch(e == n + k):
+                    return ListV(v.items[k:])
+            return ListV([])
         raise OutOfReach("slice of %r" % (v,))
     if isinstance(v, (tuple, ListV)):
         items = v if isinstance(v, tuple) else v.items
@@ -352,12 +439,18 @@ def getitem(I, v, idx, node=None):
                 n = z3.Length(v.prefix)
                 if not ctx.branch(n >= k):
                     raise PyRaise("IndexError", "list index out of range", site=node)
-                return mk_str(z3.Nth(v.prefix, n - k)) if hasattr(z3, "Nth") else mk_str(v.prefix[n - k])
-            if isinstance(idx, int) and idx >= 0:
+                return pfx_elem(v, n - k)
+            if is_intlike(idx):
                 n = z3.Length(v.prefix)
-                if ctx.branch(n > idx):
-                    return mk_str(v.prefix[idx])
-                raise OutOfReach("index into list of symbolic length beyond the prefix")
+                i = zi(idx)
+                if not ctx.branch(i >= 0):
+                    raise OutOfReach("negative symbolic index into symbolic-length list")
+                if ctx.branch(i < n):
+                    return pfx_elem(v, i)
+                for k in range(len(items)):
+                    if ctx.branch(i == n + k):
+                        return items[k]
+                raise PyRaise("IndexError", "list index out of range", site=node)
             raise OutOfReach("symbolic index into symbolic-length list")
         if isinstance(idx, int):
             if -len(items) <= idx < len(items):
@@ -387,6 +480,7 @@ def getitem(I, v, idx, node=None):
         if not ctx.branch(ok):
             raise PyRaise("IndexError", "string index out of range", site=node)
         pos = i if (isinstance(idx, int) and idx >= 0) else z3.If(i < 0, n + i, i)
+        char_at_facts(ctx, z, pos)
         return mk_str(z3.SubString(z, pos, 1))
     if isinstance(v, (bytes, SBytes)):
         if isinstance(v, bytes) and isinstance(idx, int):
@@ -713,7 +807,10 @@ def str_method(I, s, name, args, kwargs, node=None):
         if isinstance(seq, ListV) and seq.prefix is not None:
             if s != "":
                 raise OutOfReach("join with separator over symbolic list")
-            parts = [ctx.joined(seq.prefix)] + [zs(x) for x in seq.items]
+            for x in seq.items:
+                if not is_strlike(x):
+                    raise PyRaise("TypeError", "sequence item: expected str instance, %s found" % type(x).__name__, site=node)
+            parts = [pfx_joined(ctx, seq)] + [zs(x) for x in seq.items]
             return mk_str(z3.Concat(*parts) if len(parts) > 1 else parts[0])
         if isinstance(seq, SStrList):
             if s != "":
@@ -862,8 +959,8 @@ def list_method(I, l, name, args, kwargs, node=None):
             n = z3.Length(l.prefix)
             if not ctx.branch(n > 0):
                 raise PyRaise("IndexError", "pop from empty list", site=node)
-            last = mk_str(l.prefix[n - 1])
-            l.prefix = z3.SubSeq(l.prefix, 0, n - 1) if hasattr(z3, "SubSeq") else z3.Extract(l.prefix, 0, n - 1)
+            last = pfx_elem(l, n - 1)
+            l.prefix = z3.Extract(l.prefix, 0, n - 1)
             return last
         raise PyRaise("IndexError", "pop from empty list", site=node)
     if name == "index":
